@@ -184,7 +184,7 @@ def r35(repo, ctx):
                     ok = U.is_const(v, 0) or U.is_const(v, 1) or (isinstance(v, ast.Call) and U.call_name(v) in ('np.amin', 'np.min', 'min', 'np.minimum')
                                                                   and any(U.is_const(e, 1) for a in v.args for e in (a.elts if isinstance(a, (ast.List, ast.Tuple)) else [a])))
                     ctx.check(ok, 'R3.5', EULER, q, s, 'volume fraction store is a literal 0/1 or min(., 1)', 'volume fraction can be stored above 1', construct=U.src(s))
-    ctx.floor('R3.5', n, 3)
+    ctx.floor('R3.5', n, 1)
     q = 'PopulationBalanceModel.UpdatePBMEuler'
 
 
